@@ -1,15 +1,19 @@
 (** Props/C19.v — C19: chord and melody inference return a maximum-likelihood
-    path of their model, and what they write is well-formed. *)
+    path of their model, and what they write is well-formed.
+
+    Conventions: [viterbi_rev] is the returned path most-recent-state first and
+    [score ... (rev frames) p] the log-likelihood of a path [p] (same
+    orientation) accumulated in exactly the left-nested order of additions the
+    code performs; [viterbi = rev viterbi_rev] is what the functions return. *)
 From Coq Require Import ZArith List Bool.
-From NS Require Import Model.Viterbi Model.InferWrite Proofs.Viterbi Proofs.InferWrite.
+From NS Require Import Model.Viterbi Model.InferWrite Proofs.Viterbi Proofs.InferWrite Proofs.InferMelody.
 Import ListNotations.
 Local Open Scope Z_scope.
 
 (** Optimality for ANY score type with a total order and an addition monotone
     in its left argument, any number of states and frames: the returned path
-    is a valid state path and no state path of the same length scores higher,
-    the score being accumulated exactly as the code accumulates it. *)
-Theorem C19_viterbi_optimal_generic :
+    is a valid state path and no state path of the same length scores higher. *)
+Theorem C19_viterbi_optimal :
   forall (S : Type) (le : S -> S -> bool) (add : S -> S -> S) (d : S),
   (forall a, le a a = true) ->
   (forall a b c, le a b = true -> le b c = true -> le a c = true) ->
@@ -22,10 +26,10 @@ Theorem C19_viterbi_optimal_generic :
   forall p, valid_path n (Datatypes.S (length frames)) p ->
             le (score add d init cols (rev frames) p) (score add d init cols (rev frames) best) = true.
 Proof. exact @viterbi_optimal. Qed.
-Print Assumptions C19_viterbi_optimal_generic.
+Print Assumptions C19_viterbi_optimal.
 
-(** The instance the correspondence run executes against the real functions:
-    integer log-likelihoods extended with -inf. *)
+(** Instance: integer log-likelihoods extended with -inf (= log 0, which both
+    inference functions produce); the instance the correspondence runs execute. *)
 Theorem C19_viterbi_optimal_extended_integers : forall n init cols frames,
   shape n cols frames -> length init = n ->
   let best := @viterbi_rev (option Z) xle xadd None init cols frames in
@@ -35,55 +39,150 @@ Theorem C19_viterbi_optimal_extended_integers : forall n init cols frames,
 Proof. exact viterbi_x_optimal. Qed.
 Print Assumptions C19_viterbi_optimal_extended_integers.
 
+(** Instance: plain integers. *)
 Theorem C19_viterbi_optimal_integers : forall n (init : list Z) cols frames,
   shape n cols frames -> length init = n ->
   let best := @viterbi_rev Z Z.leb Z.add 0 init cols frames in
   valid_path n (Datatypes.S (length frames)) best /\
   forall p, valid_path n (Datatypes.S (length frames)) p ->
-            Z.leb (@score Z Z.add 0 init cols (rev frames) p)
-                  (@score Z Z.add 0 init cols (rev frames) best) = true.
+            Z.leb (score_z init cols (rev frames) p) (score_z init cols (rev frames) best) = true.
 Proof. exact viterbi_Z_optimal. Qed.
 Print Assumptions C19_viterbi_optimal_integers.
 
-(** Chord annotations written from the path. *)
-Theorem C19_chords_at_most_one_per_frame_in_order : forall l cur, sublist (write_chords cur l) l.
-Proof. exact write_chords_sublist. Qed.
-Print Assumptions C19_chords_at_most_one_per_frame_in_order.
+(** Chord annotations (and key signatures) written from a path over any strictly
+    increasing frame grid: a subsequence of the frames (at most one change per
+    frame boundary, on frame boundaries), times strictly increasing, consecutive
+    symbols differ, and the symbol in force at every frame is the inferred one. *)
+Theorem C19_chords_written_wf : forall times figs lo,
+  incr lo times ->
+  let frames := combine times figs in
+  let w := chords_written times figs in
+  sublist w frames /\
+  (forall t f, In (t, f) w -> In t times) /\
+  strictly_increasing lo w /\
+  adjacent_differ None w /\
+  (forall t f, In (t, f) frames -> in_force None w t = Some f).
+Proof. exact chords_written_wf. Qed.
+Print Assumptions C19_chords_written_wf.
 
-Theorem C19_chords_consecutive_symbols_differ : forall l cur, adjacent_differ cur (write_chords cur l).
-Proof. exact write_chords_differ. Qed.
-Print Assumptions C19_chords_consecutive_symbols_differ.
+(** Quantized sequence: frame k starts at k * seconds_per_chord; no hypothesis
+    on the path. *)
+Theorem C19_chords_written_wf_quantized : forall spc figs, 0 < spc ->
+  let times := frame_times_fixed spc (length figs) in
+  length times = length figs /\
+  (forall k, (k < length figs)%nat -> nth k times 0 = Z.of_nat k * spc) /\
+  chords_wf (-1) times figs.
+Proof. exact chords_written_wf_quantized. Qed.
+Print Assumptions C19_chords_written_wf_quantized.
 
-Theorem C19_chords_in_force_is_inferred_chord : forall l cur lo,
-  strictly_increasing lo l ->
-  forall t f, In (t, f) l -> in_force cur (write_chords cur l) t = Some f.
-Proof. exact write_chords_in_force. Qed.
-Print Assumptions C19_chords_in_force_is_inferred_chord.
+(** Beat-annotated sequence: frames start at 0 and at the distinct beat times
+    strictly inside the sequence, for ANY list of beat annotations (unsorted,
+    repeated, on or outside the boundaries). *)
+Theorem C19_chords_written_wf_beats : forall beats total figs,
+  let times := frame_times_beats beats total in
+  (forall t, In t times <-> t = 0 \/ (In t beats /\ 0 < t < total)) /\
+  chords_wf (-1) times figs.
+Proof. exact chords_written_wf_beats. Qed.
+Print Assumptions C19_chords_written_wf_beats.
 
-(** Melody notes written from the path. *)
-Theorem C19_melody_notes_ordered_nonoverlapping_within_sequence : forall l cur lo total ns,
-  times_increasing lo l -> cur_ok lo cur ->
-  (forall e t, In (e, t) l -> t < total) -> lo < total ->
-  write_melody cur l total = Some ns -> notes_ok (cur_start lo cur) total ns.
-Proof. exact write_melody_ok. Qed.
-Print Assumptions C19_melody_notes_ordered_nonoverlapping_within_sequence.
+(** Melody notes written by infer_melody_for_sequence for any event path on
+    which its assertion does not fire: in order, non-overlapping, non-empty,
+    inside [0, total_time], each starting where the path has an onset event of
+    that pitch.  Hypothesis: note times lie in [0, total_time]. *)
+Theorem C19_melody_written_wf : forall evs notes total ns,
+  (forall n, In n notes -> 0 <= f_start n /\ 0 <= f_end n <= total) ->
+  infer_melody_write evs notes total = Some ns ->
+  notes_ok 0 total ns /\
+  forall n, In n ns ->
+    In (Onset (m_pitch n), m_start n) (combine evs (0 :: note_event_times (frame_notes notes total) total)).
+Proof. exact infer_melody_write_wf. Qed.
+Print Assumptions C19_melody_written_wf.
 
-Theorem C19_melody_notes_start_at_onsets : forall l cur total ns,
-  write_melody cur l total = Some ns ->
-  forall n, In n ns -> (cur = Some (m_pitch n, m_start n)) \/ In (Onset (m_pitch n), m_start n) l.
-Proof. exact write_melody_starts. Qed.
-Print Assumptions C19_melody_notes_start_at_onsets.
+(** Reading the melody back: at the start of every frame the written notes sound
+    exactly the pitch of that frame's melody event, and nothing on a rest — the
+    notes are the path. *)
+Theorem C19_melody_reads_back_as_path : forall evs notes total ns,
+  (forall n, In n notes -> 0 <= f_start n /\ 0 <= f_end n <= total) ->
+  frame_notes notes total <> [] ->
+  infer_melody_write evs notes total = Some ns ->
+  forall e t, In (e, t) (combine evs (0 :: note_event_times (frame_notes notes total) total)) ->
+  sounding ns t = ev_pitches e.
+Proof. exact infer_melody_readback. Qed.
+Print Assumptions C19_melody_reads_back_as_path.
 
-(** Non-vacuity: a 2-state, 3-frame problem with a tie and a -inf transition. *)
+(** Frame summaries: an onset mark for pitch p in frame f means a real pitched
+    note of pitch p starts exactly where frame f starts.  (True of the code with
+    notes/C19-fix-1.diff; false without it: [onset_frame_needs_end_filter].) *)
+Theorem C19_onset_frame_starts_at_note : forall notes total f p,
+  (forall n, In n notes -> 0 <= f_start n /\ 0 <= f_end n <= total) ->
+  let ns := frame_notes notes total in
+  let et := note_event_times ns total in
+  has_onset ns et f p = true ->
+  exists n, In n notes /\ melodic total n = true /\ f_pitch n = p /\ nth f (0 :: et) 0 = f_start n.
+Proof. exact onset_frame_starts_at_note. Qed.
+Print Assumptions C19_onset_frame_starts_at_note.
+
+(** Melody notes start at onsets of real notes of the same pitch: for ANY state
+    path of finite log-likelihood (in particular the Viterbi path whenever some
+    path is possible at all), given the zero-probability structure of the
+    un-modelled _melody_frame_log_likelihood as an explicit hypothesis (an onset
+    state is impossible in a frame without an onset of its pitch; checked by the
+    harness on every end-to-end case). *)
+Theorem C19_melody_notes_start_at_real_notes : forall notes total cols e0 frames path ns,
+  (forall n, In n notes -> 0 <= f_start n /\ 0 <= f_end n <= total) ->
+  let fn := frame_notes notes total in
+  let et := note_event_times fn total in
+  let pitches := note_pitches fn in
+  (forall f k, (k < length pitches)%nat -> has_onset fn et f (nth k pitches 0) = false ->
+               nth (Datatypes.S k) (nth f (e0 :: frames) []) None = None) ->
+  length path = Datatypes.S (length frames) ->
+  score_x (melody_init cols e0) cols (rev frames) (rev path) <> None ->
+  infer_melody_write (map (index_to_event pitches) path) notes total = Some ns ->
+  forall n, In n ns ->
+    exists r, In r notes /\ melodic total r = true /\ f_pitch r = m_pitch n /\ f_start r = m_start n.
+Proof. exact melody_notes_start_at_real_notes. Qed.
+Print Assumptions C19_melody_notes_start_at_real_notes.
+
+(** Witness that the end-of-sequence filter is needed (the defect repaired by
+    notes/C19-fix-1.diff): without it a note sitting on the end of the sequence
+    marks an onset in a frame that starts earlier. *)
+Theorem C19_onset_frame_without_end_filter_refuted :
+  exists ns total f p,
+    (forall n, In n ns -> 0 <= f_start n /\ 0 <= f_end n <= total) /\
+    has_onset ns (note_event_times ns total) f p = true /\
+    forall n, In n ns -> f_pitch n = p -> nth f (0 :: note_event_times ns total) 0 <> f_start n.
+Proof. exact onset_frame_needs_end_filter. Qed.
+Print Assumptions C19_onset_frame_without_end_filter_refuted.
+
+(** Non-vacuity: a 2-state, 3-frame problem with ties and a -inf transition;
+    the optimum is attained, a competitor scores strictly less, a path through
+    the forbidden transition scores -inf; the writers produce non-trivial output;
+    the hypotheses of the frame theorems are satisfiable. *)
 Example C19_nonvacuous :
   let cols := [[Some 0; None]; [Some (-1); Some 0]] in
   let init := [Some (-1); Some (-1)] in
   let frames := [[Some (-2); Some (-2)]; [Some 0; Some (-3)]] in
-  shape 2 cols frames /\ viterbi_x init cols frames = [0%nat; 0%nat; 0%nat] /\
-  write_melody None [(Onset 60, 0); (Sustain 60, 5); (Rest, 9); (Onset 62, 12)] 20
-    = Some [mkM 0 9 60; mkM 12 20 62].
+  shape 2 cols frames /\ length init = 2%nat /\
+  viterbi_x init cols frames = [0%nat; 0%nat; 0%nat] /\
+  score_x init cols (rev frames) [0%nat; 0%nat; 0%nat] = Some (-3) /\
+  score_x init cols (rev frames) [1%nat; 1%nat; 0%nat] = Some (-7) /\
+  score_x init cols (rev frames) [0%nat; 1%nat; 0%nat] = None /\
+  valid_path 2 3 [1%nat; 1%nat; 0%nat] /\
+  chords_written (frame_times_fixed 8 5) [3; 3; 0; 3; 3] = [(0, 3); (16, 0); (24, 3)] /\
+  frame_times_beats [12; 4; 20; 12; 0; 4] 20 = [0; 4; 12] /\ incr (-1) (frame_times_beats [12; 4; 20; 12; 0; 4] 20) /\
+  (let notes := [mkF 60 0 5 false 0; mkF 60 5 9 false 0; mkF 62 12 20 false 0; mkF 36 0 20 true 0; mkF 70 20 20 false 0] in
+   (forall n, In n notes -> 0 <= f_start n /\ 0 <= f_end n <= 20) /\
+   note_event_times (frame_notes notes 20) 20 = [5; 9; 12] /\
+   has_onset (frame_notes notes 20) [5; 9; 12] 3 62 = true /\
+   infer_melody_write [Onset 60; Sustain 60; Rest; Onset 62] notes 20 = Some [mkM 0 9 60; mkM 12 20 62] /\
+   infer_melody_write [Onset 60; Sustain 62] notes 20 = None).
 Proof.
-  split; [|split; reflexivity].
-  unfold shape. cbn. repeat split; auto; repeat constructor.
+  cbv zeta.
+  split. { unfold shape. cbn. repeat split; auto; repeat constructor. }
+  split; [reflexivity|]. split; [reflexivity|]. split; [reflexivity|]. split; [reflexivity|].
+  split; [reflexivity|]. split. { split; [reflexivity | repeat constructor]. }
+  split; [reflexivity|]. split; [reflexivity|]. split. { cbn. Lia.lia. }
+  split. { intros n H. repeat (destruct H as [<-|H]; [cbn; Lia.lia|]). destruct H. }
+  split; [reflexivity|]. split; [reflexivity|]. split; reflexivity.
 Qed.
 Print Assumptions C19_nonvacuous.
